@@ -42,7 +42,7 @@ class HandlerV:
     def sym_call(self, I, args, kw):
         self.log.append(("call", self.idx, len(args)))
         if self.raises:
-            raise PyRaise(ExcVal("ValueError", (f"handler {self.idx} failed",)))
+            raise PyRaise(ExcVal("Exception", (f"handler {self.idx} failed",)))     # the most general class a handler can raise
         return None
 
     def sym_getattr(self, I, name):
@@ -136,7 +136,7 @@ class TriggerIntervention(Task):
             return
         if handler[0].raises:
             I.ob(f"{P}/intervention:the-handlers-exception-propagates-to-the-caller",
-                 kind == "raise" and val.cls_name == "ValueError", detail=f"{kind}:{val!r}")
+                 kind == "raise" and val.cls_name == "Exception", detail=f"{kind}:{val!r}")
         else:
             I.ob(f"{P}/intervention:returns-the-handlers-result", kind == "return", detail=f"{kind}:{val!r}")
         I.ob(f"{P}/intervention:single-handler-called-once", [c[1] for c in log] == [0])
